@@ -787,6 +787,333 @@ def walrus_out(program, log):
         rewrite(f.node.body, f.where)
 
 
+def inline_aliases(program, log):
+    """A local bound once to a private table of self (or to a bound method of
+    it, of another local, of a module) is a pure alias when nothing can
+    rebind what it names: `events = self._events`, `add = visited.add`,
+    `set_slot = object.__setattr__`.  Its uses are replaced by the named
+    expression.  NOT done for an attribute that some method other than
+    __init__ rebinds (a copy of such an attribute is a value taken at that
+    moment - exactly what the stale-copy rules look for) and not for public
+    attributes (they may be properties)."""
+    import copy
+
+    def rebound_attrs(cls):
+        out = set()
+        for m in cls.methods.values():
+            if m.name == '__init__':
+                continue
+            for n in ast.walk(m.node):
+                tg = []
+                if isinstance(n, ast.Assign):
+                    tg = [t for tt in n.targets for t in (
+                        tt.elts if isinstance(tt, ast.Tuple) else [tt])]
+                elif isinstance(n, (ast.AugAssign, ast.AnnAssign)):
+                    tg = [n.target]
+                elif isinstance(n, ast.Delete):
+                    tg = n.targets
+                for t in tg:
+                    if isinstance(t, ast.Attribute) and isinstance(
+                            t.value, ast.Name) and t.value.id == 'self':
+                        out.add(t.attr)
+        return out
+
+    def chain_parts(e):
+        parts = []
+        while isinstance(e, ast.Attribute):
+            parts.append(e.attr)
+            e = e.value
+        if isinstance(e, ast.Name):
+            return e.id, list(reversed(parts))
+        return None, None
+
+    for f in program.all_functions():
+        fn = f.node
+        cls = f.cls
+        rebound = set()
+        if cls is not None:
+            family = list(program.mro(cls)) + list(
+                program.subclasses(cls, strict=False))
+            for b in family:
+                rebound |= rebound_attrs(b)
+            # class-level defaults (x: bool = True) are values, not tables
+            for b in family:
+                rebound |= set(b.attrs)
+        params = {a.arg for a in fn.args.posonlyargs + fn.args.args
+                  + fn.args.kwonlyargs}
+        if fn.args.vararg:
+            params.add(fn.args.vararg.arg)
+        if fn.args.kwarg:
+            params.add(fn.args.kwarg.arg)
+        stores = {}
+        aug_targets = {id(n.target) for n in ast.walk(fn)
+                       if isinstance(n, ast.AugAssign)}
+        aug_names = set()
+        for n in ast.walk(fn):
+            if isinstance(n, ast.Name) and isinstance(n.ctx, (ast.Store,
+                                                              ast.Del)):
+                if id(n) in aug_targets:
+                    aug_names.add(n.id)     # in place for lists / deques
+                    continue
+                stores[n.id] = stores.get(n.id, 0) + 1
+            if isinstance(n, (ast.Global, ast.Nonlocal)):
+                for nm in n.names:
+                    stores[nm] = 99
+        for nm in aug_names:
+            # x += .. rebinds numbers and strings: only containers created
+            # by a display / constructor stay the same object
+            made = [a for a in ast.walk(fn) if isinstance(a, ast.Assign)
+                    and any(isinstance(t, ast.Name) and t.id == nm
+                            for t in a.targets)]
+            if not (len(made) == 1 and isinstance(
+                    made[0].value, (ast.List, ast.Set, ast.Dict, ast.ListComp))
+                    or (len(made) == 1 and isinstance(made[0].value, ast.Call)
+                        and dotted(made[0].value.func) in (
+                            'list', 'deque', 'set', 'dict',
+                            'collections.deque'))):
+                stores[nm] = 99
+        # names bound by nested function definitions are left alone
+        nested = [n for n in ast.walk(fn) if isinstance(
+            n, (ast.FunctionDef, ast.Lambda)) and n is not fn]
+        cands = {}
+        for st in ast.walk(fn):
+            if not (isinstance(st, ast.Assign) and len(st.targets) == 1
+                    and isinstance(st.targets[0], ast.Name)):
+                continue
+            v = st.targets[0].id
+            if stores.get(v) != 1 or v in params:
+                continue
+            root, parts = chain_parts(st.value)
+            if root is None or not parts:
+                continue
+            ok = False
+            if root == 'self' and cls is not None:
+                first = parts[0]
+                ok = first.startswith('_') and not first.startswith('__') \
+                    and first not in rebound and len(parts) <= 2
+            elif root in params or stores.get(root, 0) == 1:
+                # method of a local / parameter that is bound once
+                ok = len(parts) == 1 and (parts[0] == '__class__' or (
+                    not parts[0].startswith('_')
+                    and root not in ('self', 'cls')))
+                if root in params and stores.get(root, 0) != 0:
+                    ok = False
+            elif root not in stores and root not in params:
+                # module-level name (object.__setattr__, heapq.heappush)
+                ok = len(parts) == 1 and program.lookup(
+                    f.module, root) is not None or root in ('object',)
+            if ok:
+                cands[v] = st
+        if not cands:
+            continue
+        done = []
+        for v, st in cands.items():
+            if any(isinstance(x, ast.Name) and x.id == v for nf in nested
+                   for x in ast.walk(nf)):
+                continue
+            loads = [x for x in ast.walk(fn) if isinstance(x, ast.Name)
+                     and x.id == v and isinstance(x.ctx, ast.Load)]
+            if not loads or any(x.lineno < st.lineno for x in loads):
+                continue
+            expr = st.value
+
+            class R(ast.NodeTransformer):
+                def visit_Name(self, x):
+                    if x.id == v and isinstance(x.ctx, ast.Load):
+                        return ast.copy_location(copy.deepcopy(expr), x)
+                    return x
+
+                def visit_Assign(self, a):
+                    if a is st:
+                        p_ = ast.copy_location(ast.Pass(), a)
+                        p_._alias_removed = True
+                        return p_
+                    return self.generic_visit(a)
+            R().visit(fn)
+            done.append(v)
+            for holder in ast.walk(fn):
+                for fld in ('body', 'orelse', 'finalbody'):
+                    lst = getattr(holder, fld, None)
+                    if isinstance(lst, list) and len(lst) > 1:
+                        kept = [x for x in lst
+                                if not getattr(x, '_alias_removed', False)]
+                        if kept and len(kept) != len(lst):
+                            setattr(holder, fld, kept)
+        if done:
+            ast.fix_missing_locations(fn)
+            log.append(f'{f.where}: alias(es) {", ".join(sorted(done))} '
+                       'replaced by what they name')
+
+
+def slices_of_islice(program, log):
+    """islice(xs, len(xs) - k) over a list is xs[:-k]; islice(xs, k) is
+    xs[:k] (only the iteration idiom is rewritten: `for .. in islice(..)`)."""
+    for f in program.all_functions():
+        for n in ast.walk(f.node):
+            if not (isinstance(n, (ast.For, ast.comprehension))
+                    and isinstance(n.iter, ast.Call)):
+                continue
+            c = n.iter
+            d = dotted(c.func) or ''
+            r = program.lookup(f.module, d) if d else None
+            if not (r and r[0] == 'external' and str(r[1]).endswith(
+                    'itertools.islice')) or len(c.args) != 2 or c.keywords:
+                continue
+            xs, stop = c.args
+            if not isinstance(xs, ast.Name):
+                continue
+            new = None
+            if isinstance(stop, ast.BinOp) and isinstance(stop.op, ast.Sub) \
+                    and isinstance(stop.left, ast.Call) and dotted(
+                        stop.left.func) == 'len' and len(
+                            stop.left.args) == 1 and isinstance(
+                                stop.left.args[0], ast.Name) \
+                    and stop.left.args[0].id == xs.id and isinstance(
+                        stop.right, ast.Constant) and isinstance(
+                            stop.right.value, int) and stop.right.value > 0:
+                new = ast.Subscript(xs, ast.Slice(None, ast.UnaryOp(
+                    ast.USub(), ast.Constant(stop.right.value)), None),
+                    ast.Load())
+            elif isinstance(stop, ast.Constant) and isinstance(
+                    stop.value, int) and stop.value >= 0:
+                new = ast.Subscript(xs, ast.Slice(None, stop, None),
+                                    ast.Load())
+            if new is not None:
+                n.iter = ast.copy_location(new, c)
+                ast.fix_missing_locations(n.iter)
+                log.append(f'{f.where}: islice over {xs.id} read as a slice')
+
+
+def pop_last_idiom(program, log):
+    """`last = xs.pop()` on a local list that is afterwards only iterated
+    (`for x in xs`) reads `last = xs[-1]` ... `for x in xs[:-1]`."""
+    for f in program.all_functions():
+        fn = f.node
+        stores = {}
+        for n in ast.walk(fn):
+            if isinstance(n, ast.Name) and isinstance(n.ctx, ast.Store):
+                stores[n.id] = stores.get(n.id, 0) + 1
+        for st in ast.walk(fn):
+            if not (isinstance(st, ast.Assign) and len(st.targets) == 1
+                    and isinstance(st.targets[0], ast.Name)
+                    and isinstance(st.value, ast.Call)
+                    and isinstance(st.value.func, ast.Attribute)
+                    and st.value.func.attr == 'pop' and not st.value.args
+                    and not st.value.keywords
+                    and isinstance(st.value.func.value, ast.Name)):
+                continue
+            xs = st.value.func.value.id
+            if stores.get(xs) != 1:
+                continue
+            origin = [a for a in ast.walk(fn) if isinstance(a, ast.Assign)
+                      and any(isinstance(t, ast.Name) and t.id == xs
+                              for t in a.targets)]
+            if len(origin) != 1 or not isinstance(origin[0].value, ast.Call):
+                continue        # must be a fresh list (a call result)
+            loads = [x for x in ast.walk(fn) if isinstance(x, ast.Name)
+                     and x.id == xs and isinstance(x.ctx, ast.Load)
+                     and x is not st.value.func.value]
+            iters = {id(n.iter): n for n in ast.walk(fn)
+                     if isinstance(n, (ast.For, ast.comprehension))}
+            after = [x for x in loads if x.lineno > st.lineno]
+            before = [x for x in loads if x.lineno <= st.lineno]
+            if before or not after or not all(id(x) in iters for x in after):
+                continue
+            st.value = ast.copy_location(ast.Subscript(
+                ast.Name(xs, ast.Load()), ast.UnaryOp(
+                    ast.USub(), ast.Constant(1)), ast.Load()), st.value)
+            for x in after:
+                iters[id(x)].iter = ast.copy_location(ast.Subscript(
+                    ast.Name(xs, ast.Load()), ast.Slice(None, ast.UnaryOp(
+                        ast.USub(), ast.Constant(1)), None), ast.Load()), x)
+            ast.fix_missing_locations(fn)
+            log.append(f'{f.where}: `{st.targets[0].id} = {xs}.pop()` + '
+                       f'iteration read as {xs}[-1] / {xs}[:-1]')
+
+
+def bool_dispatch_tables(program, log):
+    """`_T = {False: a, True: b}` (a private module constant, never written)
+    subscripted by a boolean expression is `b if <expr> else a`."""
+    import copy
+    for m in program.modules.values():
+        tables = {}
+        writes = {}
+        for n in ast.walk(m.tree):
+            if isinstance(n, ast.Name) and isinstance(n.ctx, ast.Store):
+                writes[n.id] = writes.get(n.id, 0) + 1
+        for st in m.tree.body:
+            if isinstance(st, ast.Assign) and len(st.targets) == 1 \
+                    and isinstance(st.targets[0], ast.Name) \
+                    and st.targets[0].id.startswith('_') and isinstance(
+                        st.value, ast.Dict) and len(st.value.keys) == 2 \
+                    and all(isinstance(k, ast.Constant) and isinstance(
+                        k.value, bool) for k in st.value.keys) \
+                    and {k.value for k in st.value.keys} == {True, False} \
+                    and writes.get(st.targets[0].id) == 1:
+                tables[st.targets[0].id] = {
+                    k.value: v for k, v in zip(st.value.keys,
+                                               st.value.values)}
+        if not tables:
+            continue
+        mutated = {n.value.id for n in ast.walk(m.tree) if isinstance(
+            n, ast.Subscript) and isinstance(n.ctx, (ast.Store, ast.Del))
+            and isinstance(n.value, ast.Name)}
+
+        class T(ast.NodeTransformer):
+            def visit_Subscript(self, n):
+                self.generic_visit(n)
+                if isinstance(n.value, ast.Name) and n.value.id in tables \
+                        and n.value.id not in mutated and isinstance(
+                            n.ctx, ast.Load) and isinstance(
+                                n.slice, (ast.Compare, ast.BoolOp)) or (
+                        isinstance(n.value, ast.Name)
+                        and n.value.id in tables
+                        and n.value.id not in mutated
+                        and isinstance(n.ctx, ast.Load)
+                        and isinstance(n.slice, ast.UnaryOp)
+                        and isinstance(n.slice.op, ast.Not)):
+                    t = tables[n.value.id]
+                    return ast.copy_location(ast.IfExp(
+                        n.slice, copy.deepcopy(t[True]),
+                        copy.deepcopy(t[False])), n)
+                return n
+        T().visit(m.tree)
+        ast.fix_missing_locations(m.tree)
+        for nm in sorted(tables):
+            log.append(f'{m.relpath}: boolean dispatch table {nm} read as a '
+                       'conditional expression')
+
+
+def yield_from_genexp(program, log):
+    """`yield from (e for x in X if c)` is `for x in X: if c: yield e`."""
+    def rewrite(body, where):
+        for i, st in enumerate(body):
+            if isinstance(st, ast.Expr) and isinstance(
+                    st.value, ast.YieldFrom) and isinstance(
+                        st.value.value, (ast.GeneratorExp, ast.ListComp)) \
+                    and len(st.value.value.generators) == 1 \
+                    and not st.value.value.generators[0].is_async:
+                g = st.value.value.generators[0]
+                inner = [ast.Expr(ast.Yield(st.value.value.elt))]
+                for c in reversed(g.ifs):
+                    inner = [ast.If(c, inner, [])]
+                loop = ast.For(g.target, g.iter, inner, [])
+                ast.copy_location(loop, st)
+                ast.fix_missing_locations(loop)
+                body[i] = loop
+                log.append(f'{where}: `yield from <generator expression>` '
+                           'written out as a loop')
+            for fld in ('body', 'orelse', 'finalbody'):
+                sub_ = getattr(body[i], fld, None)
+                if isinstance(sub_, list) and sub_ and isinstance(
+                        sub_[0], ast.stmt):
+                    rewrite(sub_, where)
+            for h in getattr(body[i], 'handlers', []) or []:
+                rewrite(h.body, where)
+    for f in program.all_functions():
+        rewrite(f.node.body, f.where)
+
+
 def norm_name(a):
     return a.id if isinstance(a, ast.Name) else None
 
@@ -795,6 +1122,8 @@ def run(program):
     log = []
     program.records = {}
     for step in (explicit_properties, walrus_out, inline_simple_decorators,
+                 inline_aliases, slices_of_islice, pop_last_idiom,
+                 bool_dispatch_tables, yield_from_genexp,
                  unfold_records,
                  inline_private_constants, loops_to_comprehensions,
                  rename_private):
